@@ -4,6 +4,7 @@ import (
 	"fmt"
 	"go/ast"
 	"go/constant"
+	"go/token"
 	"go/types"
 	"math/big"
 	"sort"
@@ -25,16 +26,18 @@ func init() {
 			"R15.2: the forwarded message copies type, kind, dest, value, noecho, source and username from the request and is marked privileged exactly by the sender's 'op' permission at that moment. " +
 			"R15.3: a message without destination is broadcast to the group's members (minus the sender only under noecho), one with a destination is written to exactly g.GetClient(dest); only broadcast chat enters the history. " +
 			"R15.4 (proof): len(g.history) <= 50 is an inductive invariant of every writer of Group.history. " +
-			"R15.5: ClearChatHistory has the three modes (everything, one user's messages, one message of a user).",
+			"R15.5: ClearChatHistory has the three modes (everything, one user's messages, one message of a user). " +
+			"R15.6: GetChatHistory ages the history against maxHistoryAge(description) before any other read of it; the aging function compares each entry's age with the bound it is given.",
 		NotDecided: []string{
 			"replay order on join relative to concurrent chat",
-			"the age bound (wall-clock)",
+			"the age bound in wall-clock terms (only that aging happens before the history is handed out)",
 		},
 		Run: runC15,
 	})
 }
 
 func runC15(c *Ctx) {
+	defer runC15Aging(c)
 	p := c.P
 	c.Rule("R15.1", "E3", "client-supplied source/username never flow out while they differ from the sender's identity; spoofing returns a ProtocolError", 8)
 	c.Rule("R15.2", "E4", "the forwarded message is a faithful copy, privileged iff the sender holds op", 9)
@@ -537,4 +540,87 @@ func runC15History(c *Ctx) {
 	if n == 0 {
 		c.Bad("R15.4", "writers of Group.history", fHist.Pos(), "no writer found")
 	}
+}
+
+// R15.6: what is handed out as history has been aged first.
+func runC15Aging(c *Ctx) {
+	p := c.P
+	c.Rule("R15.6", "E3", "the history is aged against max-history-age before it is handed out", 2)
+	gh := p.Func("group", "Group", "GetChatHistory")
+	dh := p.Func("group", "", "discardObsoleteHistory")
+	fHist := p.Field("group", "Group", "history")
+	if gh == nil || dh == nil || fHist == nil {
+		c.Unknown("R15.6", "anchors", 0, "GetChatHistory / discardObsoleteHistory not found")
+		return
+	}
+	info := gh.Pkg.TypesInfo
+	ff := p.Facts().Analyze(gh)
+	// the assignment g.history = discardObsoleteHistory(g.history, maxHistoryAge(g.description))
+	var aging *ast.AssignStmt
+	ast.Inspect(gh.Body(), func(n ast.Node) bool {
+		as, ok := n.(*ast.AssignStmt)
+		if !ok || len(as.Lhs) != 1 || len(as.Rhs) != 1 {
+			return true
+		}
+		sel, ok := unparen(as.Lhs[0]).(*ast.SelectorExpr)
+		if !ok {
+			return true
+		}
+		if s := info.Selections[sel]; s == nil || s.Obj() != types.Object(fHist) {
+			return true
+		}
+		call, ok := unparen(as.Rhs[0]).(*ast.CallExpr)
+		if !ok || !fnIs(calleeOf(&CallSite{Call: call, In: gh}), "group", "", "discardObsoleteHistory") || len(call.Args) != 2 {
+			return true
+		}
+		if a0, ok := unparen(call.Args[0]).(*ast.SelectorExpr); ok {
+			if s := info.Selections[a0]; s != nil && s.Obj() == types.Object(fHist) {
+				if ac, ok := unparen(call.Args[1]).(*ast.CallExpr); ok && fnIs(calleeOf(&CallSite{Call: ac, In: gh}), "group", "", "maxHistoryAge") {
+					aging = as
+				}
+			}
+		}
+		return true
+	})
+	// every other read of g.history in GetChatHistory is dominated by it
+	okDom, nread := aging != nil, 0
+	if aging != nil {
+		ast.Inspect(gh.Body(), func(n ast.Node) bool {
+			sel, ok := n.(*ast.SelectorExpr)
+			if !ok {
+				return true
+			}
+			if s := info.Selections[sel]; s == nil || s.Obj() != types.Object(fHist) {
+				return true
+			}
+			if sel.Pos() >= aging.Pos() && sel.End() <= aging.End() {
+				return true
+			}
+			nread++
+			if !ff.DominatedByNode(sel, aging) {
+				okDom = false
+			}
+			return true
+		})
+	}
+	c.Check(okDom && nread > 0, "R15.6", "GetChatHistory ages the history before copying it", gh.Pos(), "g.history = discardObsoleteHistory(g.history, maxHistoryAge(g.description)) dominates every other read", "the history replayed to a joining client is not aged first: entries older than max-history-age are replayed after a quiet period")
+	// the aging function drops exactly a prefix of entries older than the bound
+	dinfo := dh.Pkg.TypesInfo
+	okCmp := false
+	ast.Inspect(dh.Body(), func(n ast.Node) bool {
+		be, ok := n.(*ast.BinaryExpr)
+		if !ok {
+			return true
+		}
+		if call, ok := unparen(be.X).(*ast.CallExpr); ok {
+			if f := calleeOf(&CallSite{Call: call, In: dh}); f != nil && f.Pkg() != nil && f.Pkg().Path() == "time" && f.Name() == "Since" {
+				params := dh.params(dinfo)
+				if id, ok := unparen(be.Y).(*ast.Ident); ok && len(params) == 2 && dinfo.Uses[id] == params[1] && (be.Op == token.LEQ || be.Op == token.LSS || be.Op == token.GTR || be.Op == token.GEQ) {
+					okCmp = true
+				}
+			}
+		}
+		return true
+	})
+	c.Check(okCmp, "R15.6", "discardObsoleteHistory compares each entry's age with the bound it is given", dh.Pos(), "time.Since(h[i].Time) against the duration parameter", "the age of an entry is not compared with the configured bound")
 }
